@@ -278,6 +278,11 @@ func (c *vbConn) process(pk refPacket, lose bool) {
 			b.log.add(c.id, "B-WITHHELD", &refPacket{Type: rtConnAck}, "")
 			return
 		}
+		if f := b.fault(func(f *e4Fault) bool { return f.Kind == "loseSession" && f.Conn == c.id }); f != nil {
+			// the broker lost this client's session (restart): session present = 0 once, kept again afterwards
+			b.sessionExists = false
+			b.log.add(c.id, "SESSION-LOST", nil, "")
+		}
 		sp := b.sessionKept && !pk.CleanSession && b.sessionExists
 		if !sp {
 			b.subs = map[string]int{}
